@@ -66,6 +66,11 @@ def make_history(rng, keys, T, extra_keys=()):
         sc = np.where(tiny, np.exp(rng.uniform(np.log(1e-5), np.log(3e-4), size=n)), sc)
         sc = np.where(rng.random(n) < 0.04, 0.0, sc)
         off = np.where(sc < 1e-3, 0.0, off)
+        # ... and coordinates located far from zero relative to their spread (mean ~ +-200, sd ~ 0.1): the sample
+        # (co)variance is about deviations from the mean, whatever the location
+        far = (rng.random(n) < 0.15) & (sc >= 1e-3)
+        sc = np.where(far, rng.uniform(0.05, 0.5, size=n), sc)
+        off = np.where(far, rng.choice([-1.0, 1.0], size=n) * rng.uniform(100.0, 300.0, size=n), off)
         z = rng.normal(size=(T, n))
         x = z * sc + off
         hist[k] = x.reshape((T,) + shp).astype(np.float32)
